@@ -814,7 +814,9 @@ impl Paragraph {
 
     /// Remove the given field from the paragraph.
     pub fn remove(&mut self, key: &str) {
-        for mut entry in self.entries() {
+        // Collect first: detaching the current node ends the lazy child iteration,
+        // which would leave later fields of the same name in place.
+        for mut entry in self.entries().collect::<Vec<_>>() {
             if entry.key().as_deref() == Some(key) {
                 entry.detach();
             }
